@@ -71,7 +71,7 @@ fn build_guarded<T: Sc>(
     with_deadline(secs, move || {
         let m = match poke {
             None => wrap_any(any_model(&recipe, &init, built)),
-            Some((which, i, j, v)) => wrap_any(AnyModel::Dyn(Box::new(RowModel {
+            Some((which, i, j, v)) => wrap_any(AnyModel::Row(Box::new(RowModel {
                 inner: any_model(&recipe, &init, built),
                 scale: None,
                 overwrite: vec![],
@@ -274,9 +274,55 @@ fn exp_family(rng: &mut Rng, n: usize) -> Recipe {
     Recipe { names, fns, x: (0..n).map(|i| i as f64 * 0.5).collect() }
 }
 
+/// an INVALID model specification (one defect, cycled): the model builder must answer with an error
+/// value; if a model comes out nevertheless, a problem is built from it and fitted - whatever happens,
+/// nothing may panic or hang
+fn emit_spec_defect_case<T: Sc>(out: &mut Out, c: &StateCase<T>, defect: usize) {
+    out.begin("robustspec", &format!("{} defect={}", header_common(c), defect));
+    let recipe = c.recipe.clone();
+    let init = c.init.clone();
+    match guarded(|| recipe.build_separable_defect::<T>(&init, defect)) {
+        Err(m) => out.line(&format!("outcome modelbuild panic {}", m)),
+        Ok(Err(e)) => out.line(&format!("outcome modelbuild err {}", e)),
+        Ok(Ok(model)) => {
+            out.line("outcome modelbuild ok");
+            let y = c.y.clone();
+            let w = c.w.clone().map(DVector::from_vec);
+            let fl = c.flavour;
+            let eps = c.eps;
+            let r = with_deadline(10, move || {
+                let m = wrap_any(AnyModel::Built(model));
+                match build_problem(fl, m, &y, w.as_ref(), eps) {
+                    Err(e) => format!("builderr {}", e),
+                    Ok(p) => {
+                        let mut o2 = Out::new();
+                        emit_outputs(&mut o2, "impl", p.as_ref());
+                        let f = p.fit(LmCfg::default_cfg().build::<T>());
+                        format!("fit {}", if f.ok { "ok" } else { "err" })
+                    }
+                }
+            });
+            match r {
+                None => {
+                    out.line("outcome use hang");
+                    HANGS.fetch_add(1, std::sync::atomic::Ordering::SeqCst);
+                }
+                Some(Err(m)) => out.line(&format!("outcome use panic {}", m)),
+                Some(Ok(s)) => out.line(&format!("outcome use {}", s.replace(' ', "_"))),
+            }
+        }
+    }
+    out.end();
+}
+
 pub fn stream(out: &mut Out, seed: u64, thorough: bool) {
     let mut rng = Rng::new(seed ^ 0xC08);
     let n = if thorough { 6000 } else { 300 };
+    // invalid specifications first (round 12): 24 (thorough 120) recipes x the four defects
+    for i in 0..(if thorough { 120 } else { 24 }) {
+        let c = random_state_case::<f64>(&mut rng, false, i);
+        emit_spec_defect_case::<f64>(out, &c, i % 4);
+    }
     for i in 0..n {
         // a hang is a violation already; hung watchdog threads keep burning CPU, so stop early
         if HANGS.load(std::sync::atomic::Ordering::SeqCst) >= 3 {
